@@ -251,7 +251,7 @@ def _guards(model, res, opaque, E):
     m, f = model.registered('EDATE')
     consts = guards.module_consts(m, model)
     ctors = [n for n in walk_no_defs(f) if isinstance(n, ast.Call) and (sa.call_name(n) or '').endswith('datetime') and len(n.args) == 3]
-    final = [c_ for c_ in ctors if not all(isinstance(a, ast.Constant) for a in c_.args)]
+    final = [c_ for c_ in ctors if not all(guards.const_number(a, consts) is not None for a in c_.args)]
     res.floor('EDATE result constructors', len(final), 1)
     for call in final:
         yexpr = src(call.args[0])
